@@ -166,8 +166,14 @@ def run_case(c):
     lam = np.linalg.eigvalsh(_eig(dm, q, lang))
     s_, t_ = float(10 ** rng.uniform(-3, 3)), float(10 ** rng.uniform(-3, 3))
     m0 = np.array(pr.masses)
-    ph.force_constants = fcin * s_
-    ph.masses = m0 * t_
+    order_fc_first = bool(rng.integers(2))  # either order of the two assignments is legitimate and must give the same object
+    if order_fc_first:
+        ph.force_constants = fcin * s_
+        ph.masses = m0 * t_
+    else:
+        ph.masses = m0 * t_
+        ph.force_constants = fcin * s_
+    obs["scaling_fc_first" if order_fc_first else "scaling_masses_first"] = 1
     okm = (np.allclose(ph.primitive.masses, m0 * t_, rtol=1e-14) and np.allclose(ph.supercell.masses, (m0 * t_)[[pr.p2p_map[x] for x in pr.s2p_map]], rtol=1e-14)
            and np.allclose(ph.unitcell.masses, np.array(ph.supercell.masses)[ph.supercell.u2s_map], rtol=1e-14))
     obs["n_scaling"] = 1
